@@ -278,7 +278,9 @@ impl Entry {
             Ok(x) => x,
             Err(e) => return Err(Box::new(e))
         };
-        self.attr = fimg.access[0];
+        // what is stored from a file image is a file: the image of a directory (or of the label) must not make
+        // a second directory that shares the clusters of the first
+        self.attr = fimg.access[0] & !(DIRECTORY | VOLUME_ID);
         if use_fimg_time {
             self.creation_tenth =fimg.created[0];
             self.creation_time = match fimg.created[1..3].try_into() {
